@@ -84,10 +84,12 @@ def clampHull (axes : Array (Array α)) (p : Array α) : Array α :=
     let ax := axes.getD a #[]
     pymin2 (pymax2 (get1 p a) (get1 ax 0)) (last1 ax)
 
-/-- the index of the source cell on every axis -/
+/-- the index of the source cell on every axis; a source on the far boundary belongs to the last cell
+(`min(searchsorted(ax, src, "right") - 1, n - 2)`, fix 162f974) -/
 def srcCell (c : RayCfg α) : Array Int :=
   (Array.range c.src.size).map fun a =>
-    Int.ofNat (searchsortedRight (c.axes.getD a #[]) (get1 c.src a)) - 1
+    min (Int.ofNat (searchsortedRight (c.axes.getD a #[]) (get1 c.src a)) - 1)
+        (Int.ofNat (c.axes.getD a #[]).size - 2)
 
 inductive StepRes (α : Type) where
   | cont (s : RaySt α)
